@@ -36,6 +36,13 @@ constexpr auto ceil_int(T const x, T const xWhole) noexcept -> T
 }
 
 template <typename T>
+constexpr auto ceil_sign(T const x, T const result) noexcept -> T
+{
+    // (-1, -0] rounds up to negative zero
+    return (result == T(0) && x < T(0)) ? -result : result;
+}
+
+template <typename T>
 constexpr auto ceil_check(T const x) noexcept -> T
 {
     return ( // NaN check
@@ -50,7 +57,7 @@ constexpr auto ceil_check(T const x) noexcept -> T
             abs(x) >= T(1) / etl::numeric_limits<T>::epsilon() ? x
                                                        :
                                                        // else
-            ceil_int(x, T(static_cast<llint_t>(x)))
+            ceil_sign(x, ceil_int(x, T(static_cast<llint_t>(x))))
     );
 }
 
